@@ -75,6 +75,7 @@ def gen_case(seed: int, idx: int):
 def judge(acc: Acc, page, text: str, exp, case: dict) -> None:
     acc.evaluations += 1
     with_items = {e.uid: it for _b, it in pg.iter_items(page) for e in [it]} if page is not None else {}
+    harness.prime(acc.evaluations)  # another page compiled first, in the same process: must not matter
     c = harness.compile_text(text)
     acc.count("listener.prog_calls", 1)
     if c.exc is not None:
